@@ -49,6 +49,14 @@ def _source(c):
     return None
 
 
+class _Idx:
+    def __init__(self, v):
+        self.v = v
+
+    def __index__(self):
+        return self.v
+
+
 def _build(c, src=None):
     import numpy as np
     from nitypes.waveform import DigitalWaveform
@@ -63,6 +71,15 @@ def _build(c, src=None):
     if "count" in c:
         kw["sample_count"] = c["count"]
     mask = c["mask"]
+    mt = c.get("mask_type")
+    if mask is not None and mt:
+        # the mask as a NumPy integer scalar or an object that only has __index__: the same integer, the same result
+        if mt == "index":
+            mask = _Idx(mask)
+        else:
+            info = np.iinfo(getattr(np, mt))
+            if info.min <= mask <= info.max:
+                mask = getattr(np, mt)(mask)
     npdt = {8: np.uint8, 16: np.uint16, 32: np.uint32}[w]
     if form == "list":
         return DigitalWaveform.from_port(list(vals), mask, **kw)
@@ -115,7 +132,18 @@ def run_impl(c):
             ok = ok and np.array_equal(src, before) and src.dtype == before.dtype
             again = _build(c, src)
             ok = ok and np.array_equal(again.data, data) and not (data.size and np.shares_memory(again.data, data))
-        return {"rows": [[int(x) for x in row] for row in data.tolist()], "signals_ok": bool(ok)}
+        rows = [[int(x) for x in row] for row in data.tolist()]
+        # signals[i].data is that column of the waveform as it is NOW: read again through the same signal objects after
+        # the window shrank and after samples were appended
+        held = [wf.signals[i] for i in range(n)]
+        for s_ in held:
+            s_.data
+        if wf.sample_count:
+            wf.sample_count = wf.sample_count - 1
+        wf.append(np.ones((2, n), want) if n else np.zeros((2, 0), want))
+        for i, s_ in enumerate(held):
+            ok = ok and np.array_equal(s_.data, wf.data[:, n - 1 - i]) and len(s_.data) == wf.sample_count
+        return {"rows": rows, "signals_ok": bool(ok)}
     return vf.try_impl(f)
 
 
@@ -208,6 +236,8 @@ def gen_cases(rng, tier):
                 vals = [v % (1 << w) for v in vals]
         c = {"k": "port", "form": form, "w": w, "values": vals, "mask": mask, "big": rng.random() < 0.5,
              "dtype": rng.choice([None, "bool", "int8", "uint8"]), "row": rng.randrange(2)}
+        if mask is not None and rng.random() < 0.3:
+            c["mask_type"] = rng.choice(["int8", "int16", "int32", "int64", "uint8", "uint16", "uint32", "index"])
         m = rng.random()
         if m < 0.3:
             c["start"] = rng.choice([0, 1, n, n + 1, -1])
